@@ -8,6 +8,8 @@ import build as B
 VERIF = B.VERIF
 OUT = os.path.join(B.BUILD, "out")
 KF_PATH = os.path.join(VERIF, "known_findings.json")
+# runs against another source tree (VERIF_REPO=scratch worktree) must not overwrite the real evidence/replays
+ARTEFACTS = VERIF if B.REPO == "/repo" else B.BUILD
 STD_WRAPS = ["exit", "_exit", "abort", "time", "gettimeofday"]
 VX = ["vx/vx.c", "h/hx.c"]
 
@@ -44,7 +46,7 @@ class Check:
         self.parts = []
         self.broken = None
         os.makedirs(OUT, exist_ok=True)
-        os.makedirs(os.path.join(VERIF, "evidence"), exist_ok=True)
+        os.makedirs(os.path.join(ARTEFACTS, "evidence"), exist_ok=True)
 
     # ---------------------------------------------------------------- building
     def harness(self, name, sources, profile="asan", **kw):
@@ -157,7 +159,7 @@ class Check:
         return "confirmed"
 
     def write_replay(self, key, info):
-        d = os.path.join(VERIF, "replays", self.pid)
+        d = os.path.join(ARTEFACTS, "replays", self.pid)
         os.makedirs(d, exist_ok=True)
         digest = hashlib.sha1(key.encode()).hexdigest()[:12]
         path = os.path.join(d, digest + ".json")
@@ -202,7 +204,7 @@ class Check:
         cov["violation_keys"] = violations
         ev = {"property_id": self.pid, "tier": self.tier, "seed": self.seed, "level": self.level,
               "coverage": cov, "assumptions": list(assumptions), "wall_s": wall, "violations": len(violations)}
-        json.dump(ev, open(os.path.join(VERIF, "evidence", self.pid + ".json"), "w"), indent=1)
+        json.dump(ev, open(os.path.join(ARTEFACTS, "evidence", self.pid + ".json"), "w"), indent=1)
         for l in lines:
             print(l)
         print("%s property=%s tier=%s wall=%.0fs violations=%d known=%d" % ("FAIL" if violations else "PASS", self.pid, self.tier, wall, len(violations), len(known_hits)))
